@@ -16,7 +16,7 @@ import re
 import subprocess
 import time
 
-from vf.common import HELD, INCONCLUSIVE, PY, VERIF, VIOLATED, Run, case_hash, main_wrapper, run_pool, seed
+from vf.common import wall_budget, HELD, INCONCLUSIVE, PY, VERIF, VIOLATED, Run, case_hash, main_wrapper, run_pool, seed
 
 PID = "C12"
 
@@ -158,7 +158,7 @@ def main(tier, replay=None):
     cases = cases_for(tier, s)
     if replay:
         cases = [json.load(open(replay))["replay"]["case"]]
-    results = run_pool("c12", cases, per_case_timeout=600, chunk=2, deadline=time.time() + (420 if tier == "quick" else 2400))
+    results = run_pool("c12", cases, per_case_timeout=600, chunk=2, deadline=time.time() + wall_budget(tier, 420, 2400))
     for r in results:
         run.add(r)
     run.require("compared", 60 if not replay else 1)
